@@ -345,7 +345,7 @@ def dec_main(prop):
         "C19": "per message %d images (the last one with inflated wire block lengths): full visit, and one visit per stopping point k = 1..min(#callbacks, %d) with a "
                "recording visitor (callback kind, traits name of the callback's tag, value, order), both visit overloads; "
                "visit of every enum member value (known/unknown tag) and every set member (all choices in order); "
-               "get_by_tag/set_by_tag equivalence is exercised by the tag modes of C01/C02 on the same drivers. "
+               "get_by_tag (plain and cursor overloads) against the value tree on the first and the inflated image of every message; the set_by_tag side is exercised by the cursor+tag encode form of C01 on the same drivers. "
                "distinct_nontrivial = distinct (schema, message, image, k)." % (nimg, max_stops),
     }
     rep.rule(rules[prop])
@@ -372,6 +372,14 @@ def dec_main(prop):
                 if prop in ("C02", "C03", "C05"):
                     modes = {"C02": (0, 1, 2, 3), "C03": (0, 2), "C05": (0, 2)}[prop]
                     for mode in modes:
+                        cid = "d%d_%d" % (mi, len(cases))
+                        cases.append(dict(base, id=cid, cmd="DEC %s %x %d %s" % (cid, mi, mode, hx), mode=mode, kind="dec",
+                                          what="decode mode=%s" % G.DUMP_MODES[mode]))
+                if prop == "C19" and k in (0, nimg - 1):
+                    # get_by_tag behaves like the named accessors, also through the cursor overloads (whose position
+                    # every following access depends on): the by-tag and cursor+by-tag decode modes on the first and
+                    # on the inflated image (added after seeded change C19-5; the set_by_tag side is C01's cursor+tag form)
+                    for mode in (1, 3):
                         cid = "d%d_%d" % (mi, len(cases))
                         cases.append(dict(base, id=cid, cmd="DEC %s %x %d %s" % (cid, mi, mode, hx), mode=mode, kind="dec",
                                           what="decode mode=%s" % G.DUMP_MODES[mode]))
@@ -410,6 +418,8 @@ def dec_main(prop):
             else:
                 obs = lines
             rep.count("lines_compared", len(exp))
+            if prop == "C19":
+                rep.count("by_tag_dumps")
             if not report_diff(rep, p, cfg, case, "value-mismatch" if prop != "C05" else "size-mismatch", exp, obs):
                 if nontriv:
                     if prop == "C03":
